@@ -277,9 +277,11 @@ def handleLine (st0 : DrvSt) (line : String) : DrvSt × String :=
             let key ← match k with
               | .list [.sym "idx", i] => do pure (Key.idx (← i.int?))
               | .list [.sym "label", l] => do pure (Key.label (← l.nat?))
+              | .list [.sym "item", p] => do pure (Key.item (← p.nat?))
               | .sym "other" => some Key.other
               | _ => none
-            let cont : V := match key with | .label l => .int (if containsLabel labels l then 1 else 0) | _ => .int (-1)
+            -- `key in block`: 1 / 0, or -2 for TypeError
+            let cont : V := match memberOf labels key with | .yes => .int 1 | .no => .int 0 | .typeError => .int (-2)
             pure (match getItem labels key with
               | .item p => V.list [.sym "item", .int p, cont]
               | .indexError => V.list [.sym "IndexError", cont]
